@@ -29,10 +29,10 @@ theorem c12n_labelNames_is_prims (label : String) :
 /-- the `DB|accession` trimming of `shortest_name` -/
 theorem c12n_pipeTrim_is_source (name : String) : pipeTrim name = src_shortest_name_trim name := by
   unfold pipeTrim src_shortest_name_trim
-  first
-  | rfl
-  | (simp only [C12N.pyLen, C12N.pyInnerContains, C12N.pySplitLast, lastPipeSegment]
-     split_ifs <;> simp_all)
+  simp only [C12N.pyLen, C12N.pyInnerContains, C12N.pySplitLast, lastPipeSegment]
+  by_cases h1 : 2 < name.toList.length <;>
+    by_cases h2 : ((name.toList.drop 1).dropLast).contains '|' = true <;>
+    simp [h1, h2]
 
 /-- `shortest_name`: the model's candidate list is the source's (duplicates removed) -/
 theorem c12n_shortestNames_is_source (names : List String) :
@@ -49,8 +49,8 @@ theorem c12n_step_is_source (cur : List String) (cnt : Nat) (l : String) :
        else (List.replicate cnt (shortestNames cur), (labelNames l, 1))) := by
   simp only [src_shorten_labels_step, c12n_labelNames_is_prims, C12N.pyInter]
   all_goals first
-  | rfl
-  | (split_ifs <;> simp_all)
+  | (with_reducible rfl)
+  | (generalize cur.filter (fun n => (labelNames l).contains n) = ov; cases ov <;> simp)
 
 /-- the state machine of `shorten_labels`, from any state -/
 theorem c12n_shortenGo_is_source (cur : List String) (cnt : Nat) (labels : List String) :
